@@ -72,6 +72,11 @@ def r1(ctx, R):
         for c in q.calls(f, name="on_clear_trace"):
             n += 1
             R.inst("on_clear_trace caller %s" % f.short)
+            if f.short == "CallStack.rollback":
+                # the failed element only, after its node left the graph (decided by C05.R3)
+                if call_recv(c) != "node[]" or [norm(a) for a in c.args] != ["node[KEY]"]:
+                    R.bad(f, c, "rollback drops the value of something other than the failed element")
+                continue
             if f.short not in allowed:
                 R.bad(f, c, "on_clear_trace called outside the TraceManager: data removed without removing graph nodes")
                 continue
@@ -435,6 +440,13 @@ def r4(ctx, R):
         if not oc:
             R.bad(fi, fi.node, "values of removed nodes are not dropped", stmt="on_clear_trace")
     ca = ctx.func("TraceManager.clear_attr_referrers")
+    R.inst("clear_attr_referrers: like its siblings, drops the reference edges of every trace node it removes")
+    tr_ = [c for c in q.calls(ca, name="remove_with_descs") if (call_recv(c) or "").endswith("tracegraph")]
+    rw = q.calls(ca, name="remove_with_referred")
+    if not tr_ or not rw or not any(q.origin(ca, c.args[0]) is tr_[0] for c in rw if c.args) or \
+            (enclosing_for(ca, rw[0]) is not enclosing_for(ca, tr_[0])):
+        R.bad(ca, ca.node, "elements cleared as dependents of a reference reader keep their other reference edges: "
+                           "precedents() lists references the new formula never read", stmt="remove_with_referred(descs)")
     R.inst("clear_attr_referrers: every referrer's closure is removed and its values dropped")
     c1 = [c for c in q.calls(ca, name="remove_with_descs") if (call_recv(c) or "").endswith("refgraph")]
     c2 = [c for c in q.calls(ca, name="remove_with_descs") if (call_recv(c) or "").endswith("tracegraph")]
